@@ -65,8 +65,8 @@ func (c13) Gen(seed uint64, tier string) *Scenario {
 func (c13) Shrinks(c *Case) []*Case { return queryShrinks(c) }
 
 type raceReport struct {
-	Sig    string
-	Text   string
+	Sig     string
+	Text    string
 	Harness bool
 }
 
